@@ -135,20 +135,23 @@ def epsilon(env, kind):
     return e
 
 
-def pos(env, name, hi=None):
-    v = env.real(name, lo=0.0, hi=hi)
+def pos(env, name, hi=None, sample=4.0):
+    """a real > 0 (sample only steers the concrete sampler, not the symbolic domain)."""
+    v = env.real(name, hi=hi, default_range=(0.0, sample if hi is None else hi))
     env.assume(v > 0, f"{name} > 0")
     return v
 
 
-def nonneg(env, name, hi=None):
-    return env.real(name, lo=0.0, hi=hi)
+def nonneg(env, name, hi=None, sample=4.0):
+    v = env.real(name, hi=hi, default_range=(0.0, sample if hi is None else hi))
+    env.assume(v >= 0, f"{name} >= 0")
+    return v
 
 
 FORMS = ("c_is_b", "c_is_a", "beyond_b", "beyond_a")
 
 
-def arbitrary_finder(env, eps_kind, form, zeros=False):
+def arbitrary_finder(env, eps_kind, form, zeros=False, b=None, sample=4.0):
     """An arbitrary finder state satisfying BInv, built from sign / orientation
     choices and positive magnitudes (so that concrete sampling works too)."""
     bm = env.mod("emu_base.math.brents_root_finding")
@@ -156,31 +159,32 @@ def arbitrary_finder(env, eps_kind, form, zeros=False):
     rf.epsilon = epsilon(env, eps_kind)
     orient = env.choice("orientation(a-b)", [1, -1])
     sgn = env.choice("sign(fa)", [1, -1])
-    b = env.real("b")
-    w = pos(env, "w")
+    if b is None:
+        b = env.real("b")
+    w = pos(env, "w", sample=sample)
     a = b + orient * w
-    mfa = pos(env, "|fa|")
-    mfb = nonneg(env, "|fb|") if zeros else pos(env, "|fb|")
-    env.assume(mfb <= mfa, "|fb| <= |fa|")
+    P = nonneg if zeros else pos
+    if form == "beyond_a":
+        mfc = P(env, "|fc|")
+        mfb = mfc + nonneg(env, "|fb|-|fc|")
+    else:
+        mfb = P(env, "|fb|")
+    mfa = mfb + nonneg(env, "|fa|-|fb|")
+    env.assume(mfa > 0, "fa != 0")
     fa, fb = sgn * mfa, -sgn * mfb
     if form == "c_is_b":
         c, fc = b, fb
     elif form == "c_is_a":
         c, fc = a, fa
     elif form == "beyond_b":
-        c = b - orient * pos(env, "e_c")
-        mfc = nonneg(env, "|fc|") if zeros else pos(env, "|fc|")
+        c = b - orient * pos(env, "e_c", sample=sample)
+        mfc = P(env, "|fc|")
         env.assume(mfc <= mfa, "|fc| <= |fa|")
         fc = -sgn * mfc
-        if zeros:
-            # weak sign: fc may also have the other sign only if fb = 0
-            pass
     else:
-        c = a + orient * pos(env, "e_c")
-        mfc = nonneg(env, "|fc|") if zeros else pos(env, "|fc|")
-        env.assume(mfc <= mfb, "|fc| <= |fb|")
+        c = a + orient * pos(env, "e_c", sample=sample)
         fc = sgn * mfc
-    d = env.real("d")
+    d = env.real("d", default_range=(-12.0, 12.0))
     env.assume(b_not(strictly_between(d, a, b)), "d is not strictly inside the bracket")
     rf.a, rf.b, rf.c, rf.d = a, b, c, d
     rf.fa, rf.fb, rf.fc = fa, fb, fc
@@ -190,8 +194,24 @@ def arbitrary_finder(env, eps_kind, form, zeros=False):
     return rf
 
 
+def secant_branch(rf):
+    """predicate of the first `if` in get_next_abscissa (no fork)."""
+    return b_or(abs(rf.fc - rf.fa) < rf.epsilon, abs(rf.fc - rf.fb) < rf.epsilon)
+
+
+def check_convergence(env, rf, tol, a2, b2, fa2, fb2):
+    conv = rf.is_converged(tol)
+    g = rf.current_guess
+    env.check(
+        b_implies(conv, b_and(g == b2, abs(g - a2) < tol, abs(g - b2) < tol, fa2 * fb2 <= 0)),
+        "at convergence current_guess is within tolerance of both ends of a bracket with a sign change",
+    )
+    env.check(b_implies(b_not(conv), abs(a2 - b2) >= tol), "not converged means |b-a| >= tolerance")
+    return conv
+
+
 # ---------------------------------------------------------------------------
-# case: one inductive step
+# case: one inductive step  (non-zero ordinates)
 # ---------------------------------------------------------------------------
 def inductive_step(eps_kind, form):
     def fn(env):
@@ -199,43 +219,253 @@ def inductive_step(eps_kind, form):
         env.check(binv(rf), "constructed pre-state satisfies BInv")
         a, b, fa, fb = rf.a, rf.b, rf.fa, rf.fb
         c0 = rf.c
+        sec = secant_branch(rf)
         try:
             x = guarded_next(env, rf)
         except _Stop:
             return
+        bis = rf.bisection
         env.check(x == rf.next_abscissa, "get_next_abscissa returns next_abscissa")
         env.check(weakly_between(x, a, b), "next abscissa lies in the closed bracket")
         env.check(x != a, "next abscissa is not the far end a")
         inside = strictly_between(x, a, b)
-        if env.mutant("require_midpoint"):
-            env.check(x == (a + b) / 2, "next abscissa strictly inside the bracket")
-        env.check(inside, "next abscissa strictly inside the bracket")
-        env.check(b_and(rf.c == b, rf.fc == fb, rf.d == c0), "history shifted: c,fc = b,fb and d = old c")
-        env.check(b_and(rf.a == a, rf.b == b, rf.fa == fa, rf.fb == fb), "get_next_abscissa leaves the bracket unchanged")
-        env.assume(inside, "x strictly inside (otherwise the ordinate is the known f(b))")
+        env.check(b_or(inside, x == b), "next abscissa is strictly inside the bracket, or it is b itself")
+        env.check(
+            b_implies(b_or(sec, bis), inside),
+            "a secant step and a bisection step query strictly inside the bracket",
+        )
+        if env.mutant("strict_always"):
+            env.check(inside, "next abscissa is strictly inside the bracket, or it is b itself")
+        env.check(b_implies(bis, x == (a + b) / 2), "a bisection step queries the midpoint")
+        hist = b_and(rf.c == b, rf.fc == fb, rf.d == c0)
+        if env.mutant("wrong_history"):
+            hist = b_and(rf.c == a, rf.fc == fa)
+        env.check(hist, "history shifted: c,fc = b,fb and d = old c")
+        env.check(
+            b_and(rf.a == a, rf.b == b, rf.fa == fa, rf.fb == fb),
+            "get_next_abscissa leaves the bracket unchanged",
+        )
+        if x == b:
+            # stall step: an accepted inverse-quadratic step with dx = 0 re-queries b; the
+            # function value there is known (function-consistent ordinate)
+            env.check(b_and(b_not(sec), not bis), "x = b only on an accepted inverse-quadratic step")
+            env.check(form in ("beyond_b", "beyond_a"), "x = b only when c lies outside the bracket")
+            rf.provide_ordinate(x, fb)
+            env.check(
+                b_and(rf.a == a, rf.b == b, rf.fa == fa, rf.fb == fb, rf.c == b, rf.fc == fb),
+                "after re-querying b the bracket is unchanged and the history has form F1 (next step is a secant step)",
+            )
+            env.check(binv(rf), "BInv is inductive")
+            return
         y = env.real("y", nonzero=True)
         rf.provide_ordinate(x, y)
         a2, b2, fa2, fb2 = rf.a, rf.b, rf.fa, rf.fb
-        env.check(b_and(weakly_between(a2, a, b), weakly_between(b2, a, b)), "new bracket is contained in the old one")
+        env.check(
+            b_and(weakly_between(a2, a, b), weakly_between(b2, a, b)),
+            "new bracket is contained in the old one",
+        )
         shrink = abs(a2 - b2) < abs(a - b)
         if env.mutant("halves"):
             shrink = abs(a2 - b2) * 2 <= abs(a - b)
         env.check(shrink, "new bracket is strictly shorter")
-        env.check(fa2 * fb2 <= 0, "fa'*fb' <= 0")
-        env.check(fa2 * fb2 < 0, "fa'*fb' < 0 for non-zero ordinates")
+        env.check(b_and(fa2 * fb2 <= 0, fa2 * fb2 < 0), "fa'*fb' <= 0 (and < 0 for a non-zero ordinate)")
         env.check(abs(fb2) <= abs(fa2), "|fb'| <= |fa'|")
-        env.check(b_or(b_and(a2 == x, fa2 == y), b_and(b2 == x, fb2 == y)), "the queried point is an end of the new bracket")
-        env.check(rf.current_guess == b2, "current_guess is b'")
+        env.check(
+            b_or(b_and(a2 == x, fa2 == y), b_and(b2 == x, fb2 == y)),
+            "the queried point is an end of the new bracket",
+        )
         env.check(binv(rf), "BInv is inductive")
         tol = pos(env, "tol")
-        if rf.is_converged(tol):
-            g = rf.current_guess
-            env.check(
-                b_and(abs(g - a2) < tol, abs(g - b2) < tol, fa2 * fb2 <= 0),
-                "at convergence current_guess is within tolerance of both ends of a bracket with a sign change",
+        check_convergence(env, rf, tol, a2, b2, fa2, fb2)
+
+    return fn
+
+
+# ---------------------------------------------------------------------------
+# case: base case — the real constructor establishes BInv
+# ---------------------------------------------------------------------------
+def bracket_inputs(env, geometry=None, ends=None, fbound=None):
+    if ends is not None:
+        start, end = geometry
+        fs, fe = env.choice("(f_start, f_end)", ends)
+        return start, end, fs, fe
+    if geometry is None:
+        start = env.real("start")
+        w = pos(env, "width", hi=8.0)
+        end = start + w
+    else:
+        start, end = geometry
+    sgn = env.choice("sign(f_start)", [1, -1])
+    m1 = pos(env, "|f_start|", hi=fbound)
+    m2 = pos(env, "|f_end|", hi=fbound)
+    return start, end, sgn * m1, -sgn * m2
+
+
+def base_case(eps_kind):
+    def fn(env):
+        bm = env.mod("emu_base.math.brents_root_finding")
+        start, end, fs, fe = bracket_inputs(env)
+        eps = epsilon(env, eps_kind)
+        rf = bm.BrentsRootFinder(start=start, end=end, f_start=fs, f_end=fe, epsilon=eps)
+        inv = binv(rf)
+        if env.mutant("a_is_better"):
+            inv = b_and(inv, abs(rf.fa) <= abs(rf.fb))
+        env.check(inv, "the constructor establishes BInv")
+        env.check(
+            b_or(
+                b_and(rf.a == start, rf.b == end, rf.fa == fs, rf.fb == fe),
+                b_and(rf.a == end, rf.b == start, rf.fa == fe, rf.fb == fs),
+            ),
+            "the initial bracket is [start, end] with the given ordinates",
+        )
+        env.check(b_and(rf.c == rf.a, rf.fc == rf.fa, rf.d == rf.a), "initial history is c = d = a")
+        env.check(rf.bisection is True and rf.next_abscissa is None, "bisection flag is set initially")
+        env.check(rf.current_guess == rf.b, "current_guess is b")
+        env.check(rf.epsilon is eps, "epsilon stored")
+        # same-sign (or zero) end values are rejected
+        bad = env.choice("bad ends", ["same sign", "zero start", "reversed"])
+        if bad == "same sign":
+            env.check_raises(
+                lambda: bm.BrentsRootFinder(start=start, end=end, f_start=fs, f_end=-fe, epsilon=eps),
+                (AssertionError,),
+                "same-sign end values are rejected",
+            )
+        elif bad == "zero start":
+            env.check_raises(
+                lambda: bm.BrentsRootFinder(start=start, end=end, f_start=0.0, f_end=fe, epsilon=eps),
+                (AssertionError,),
+                "a zero end value is rejected",
             )
         else:
-            env.check(abs(a2 - b2) >= tol, "not converged means |b-a| >= tolerance")
+            env.check_raises(
+                lambda: bm.BrentsRootFinder(start=end, end=start, f_start=fs, f_end=fe, epsilon=eps),
+                (AssertionError,),
+                "start > end is rejected",
+            )
+
+    return fn
+
+
+# ---------------------------------------------------------------------------
+# case: T1 — ranking lemma (pure bisection regime)
+# ---------------------------------------------------------------------------
+def t1_lemma(eps_kind, form):
+    """lo > 0, hi - lo < 2*eps*lo, a, b, c in [lo, hi], bisection flag set  ==>
+    the step bisects, the flag stays set, the bracket halves, and a', b', c' stay
+    in [lo, hi] (so the hypothesis is inductive): the finder stops after
+    ceil(log2(width/tolerance)) steps for every ordinate sequence."""
+
+    def fn(env):
+        lo = pos(env, "lo", sample=4.0)
+        span = pos(env, "span", sample=8.0)
+        hi = lo + span
+        rf = arbitrary_finder(env, eps_kind, form, b=lo + nonneg(env, "b-lo", sample=0.25), sample=0.25)
+        eps = rf.epsilon
+        env.assume(span < 2 * eps * lo, "hi - lo < 2*eps*lo")
+        for nm in ("a", "b", "c"):
+            v = getattr(rf, nm)
+            env.assume(b_and(lo <= v, v <= hi), f"{nm} in [lo, hi]")
+        if not env.mutant("flag_not_set"):
+            env.assume(rf.bisection is True, "bisection flag set")
+        a, b = rf.a, rf.b
+        try:
+            x = guarded_next(env, rf)
+        except _Stop:
+            return
+        env.check(rf.bisection is True, "T1: the flag stays set")
+        env.check(x == (a + b) / 2, "T1: the next abscissa is the midpoint")
+        y = env.real("y", nonzero=True)
+        rf.provide_ordinate(x, y)
+        half = abs(rf.a - rf.b) * 2 == abs(a - b)
+        if env.mutant("quarter"):
+            half = abs(rf.a - rf.b) * 4 <= abs(a - b)
+        env.check(half, "T1: the bracket halves")
+        inr = b_and(*[b_and(lo <= getattr(rf, nm), getattr(rf, nm) <= hi) for nm in ("a", "b", "c")])
+        env.check(inr, "T1: a', b', c' stay in [lo, hi] (hypothesis is inductive)")
+        env.check(binv(rf), "BInv is inductive")
+
+    return fn
+
+
+# ---------------------------------------------------------------------------
+# case: bounded unrolling through the real find_root_brents
+# ---------------------------------------------------------------------------
+def instrumented(env, bm, log, zeros):
+    Real = bm.BrentsRootFinder
+
+    class Instrumented(Real):  # the real class + VCs in front of every step
+        def __init__(self, **kw):
+            Real.__init__(self, **kw)
+            log["finder"] = self
+            log["lo"], log["hi"] = kw["start"], kw["end"]
+
+        def get_next_abscissa(self):
+            k = log["steps"]
+            env.check(binv(self, zeros=zeros), f"state reached after {k} steps satisfies BInv")
+            a, b = self.a, self.b
+            x = guarded_next(env, self, lambda: Real.get_next_abscissa(self))
+            env.check(weakly_between(x, a, b), f"query {k + 1} lies in the current bracket")
+            lo, hi = log["lo"], log["hi"]
+            if env.mutant("open_interval_from_start"):
+                lo = lo + (hi - lo) / 4
+            env.check(b_and(lo <= x, x <= hi), f"query {k + 1} lies in the original interval")
+            log["steps"] = k + 1
+            return x
+
+    return Real, Instrumented
+
+
+def unrolling(eps_kind, depth, zeros=False, geometry=None, tolerance=None, ends=None, fbound=None):
+    def fn(env):
+        bm = env.mod("emu_base.math.brents_root_finding")
+        start, end, fs, fe = bracket_inputs(env, geometry, ends, fbound)
+        eps = epsilon(env, eps_kind)
+        tol = pos(env, "tol", hi=2.0) if tolerance is None else tolerance
+        table = []  # (abscissa, ordinate) in evaluation order
+        log = {"steps": 0}
+
+        def f(x):
+            if len(table) == 0:
+                y = fs
+            elif len(table) == 1:
+                y = fe
+            else:
+                for xp, yp in table:
+                    if x == xp:  # function-consistent re-query (forks; infeasible when x is new)
+                        table.append((x, yp))
+                        return yp
+                k = len(table) - 1
+                if k > depth:
+                    raise _Stop()  # bound of the unrolling: nothing is claimed beyond it
+                if zeros and env.boolean(f"y{k} is exactly zero"):
+                    y = 0.0
+                else:
+                    y = env.real(f"y{k}", nonzero=True, lo=None if fbound is None else -fbound, hi=fbound)
+            table.append((x, y))
+            return y
+
+        Real, Inst = instrumented(env, bm, log, zeros)
+        bm.BrentsRootFinder = Inst
+        try:
+            root = bm.find_root_brents(f, start=start, end=end, tolerance=tol, epsilon=eps)
+        except _Stop:
+            return
+        finally:
+            bm.BrentsRootFinder = Real
+        rf = log["finder"]
+        env.check(b_and(start <= root, root <= end), "the returned point lies in [start, end]")
+        far = rf.a if not env.mutant("far_end_is_start") else start
+        at_ends = b_and(
+            root == rf.b,
+            abs(rf.b - far) < tol,
+            rf.fa * rf.fb <= 0,
+            b_or(*[b_and(rf.a == xp, rf.fa == yp) for xp, yp in table]),
+            b_or(*[b_and(rf.b == xp, rf.fb == yp) for xp, yp in table]),
+        )
+        env.check(
+            at_ends,
+            "the returned point is an evaluated point within tolerance of another evaluated point with an ordinate of opposite (or zero) sign",
+        )
 
     return fn
 
@@ -248,16 +478,68 @@ META = {
 
 
 def cases(tier):
+    quick = tier == "quick"
     out = []
     for e in EPS_KINDS:
         for form in FORMS:
+            beyond = form.startswith("beyond")
             out.append(
                 Case(
                     name=f"step_eps{e}_{form}",
                     fn=inductive_step(e, form),
                     covers=COVERS[1:4],
-                    bounds={"epsilon": e, "history form": form, "steps": 1},
-                    canaries=["halves", "require_midpoint"],
+                    bounds={"epsilon": e, "history form": form, "steps": "1 (inductive)"},
+                    canaries=["halves", "wrong_history"] + (["strict_always"] if beyond and e != "1" else []),
+                    weight=3.0 if beyond else 1.0,
                 )
             )
+    for e in EPS_KINDS:
+        out.append(
+            Case(
+                name=f"base_eps{e}",
+                fn=base_case(e),
+                covers=COVERS[:1],
+                bounds={"epsilon": e, "width": "(0, 8]"},
+                canaries=["a_is_better"],
+                weight=0.2,
+            )
+        )
+    for e in EPS_KINDS:
+        for form in FORMS:
+            out.append(
+                Case(
+                    name=f"t1_eps{e}_{form}",
+                    fn=t1_lemma(e, form),
+                    covers=COVERS[1:3],
+                    bounds={"epsilon": e, "history form": form, "regime": "lo > 0, hi - lo < 2*eps*lo, flag set"},
+                    canaries=["flag_not_set", "quarter"],
+                    weight=0.5,
+                )
+            )
+    # secant regime of the noisy solver: eps = 1 and |f| <= 1/2 (differences < 1 = eps)
+    for geo, depth in ([((0.0, 4.0), 2)] if quick else [((0.0, 4.0), 3), (None, 3)]):
+        out.append(
+            Case(
+                name=f"unroll_secant_{'fixed' if geo else 'sym'}_d{depth}",
+                fn=unrolling("1", depth, geometry=geo, tolerance=1.0, fbound=0.5),
+                covers=COVERS,
+                bounds={"epsilon": 1, "queries": depth, "interval": geo or "symbolic, width (0, 8]", "tolerance": 1,
+                        "|f|": "(0, 1/2]"},
+                canaries=["open_interval_from_start", "far_end_is_start"],
+                weight=10.0,
+            )
+        )
+    for depth in ([2] if quick else [3]):
+        out.append(
+            Case(
+                name=f"unroll_eps1e-6_d{depth}",
+                fn=unrolling("1e-6", depth, geometry=(0.0, 4.0), tolerance=1.0, ends=[(-3.0, 1.0), (0.5, -2.0)]),
+                covers=COVERS,
+                bounds={"epsilon": 1e-6, "queries": depth, "interval": (0.0, 4.0), "tolerance": 1,
+                        "(f_start, f_end)": [(-3.0, 1.0), (0.5, -2.0)], "ordinates": "symbolic, non-zero"},
+                canaries=["open_interval_from_start", "far_end_is_start"],
+                weight=10.0,
+                timeout_ms=60000,
+            )
+        )
     return out
